@@ -356,6 +356,7 @@ def json_plan(p, rng):
 def decorate(cfg, case, rng):
     """every guard spelling, parameterised actions, named delays, invoke input, tags/meta/description"""
     atoms = case.atoms or ["g0"]
+    use_internal = rng.random() < 0.2
 
     def guard_form(g):
         if not isinstance(g, str):
@@ -389,6 +390,9 @@ def decorate(cfg, case, rng):
         elif isinstance(t, dict):
             if "guard" in t:
                 t["guard"] = guard_form(t["guard"])
+            if use_internal and t.get("target") is not None and "reenter" not in t and rng.random() < 0.3:
+                # the XState v4 key: ignored by the library, a temptation for the generator
+                t["internal"] = rng.random() < 0.5
             acts = t.get("actions")
             if isinstance(acts, list):
                 for i, a in enumerate(acts):
@@ -429,7 +433,9 @@ HOSTILE = ['say "hi"', "it's", 'tri"""ple', "back\\slash", "new\nline", "tab\the
            "class", "def", "None", "import", "1st", "with space", "dash-ed", "ünï", "日本", "a;b", "x=1",
            "__import__('os').system('touch CANARY_EXEC')", "\"); open('CANARY_EXEC','w').close() #",
            "'''; open('CANARY_EXEC','w').close(); '''", "f\"{open('CANARY_EXEC','w')}\"", "\\\"", "a\\",
-           "lambda: 0", "print", "self", "logger", "State", "build", "enterGreen", "enter_green", "enter__green"]
+           "lambda: 0", "print", "self", "logger", "State", "build", "enterGreen", "enter_green", "enter__green",
+           # line separators other than \n that str.splitlines() honours
+           "nel\x85x", "ls\u2028x", "ps\u2029x", "ff\x0cx", "vt\x0bx", "fs\x1cx", "import os\u2028import sys"]
 
 
 def hostile_config(rng):
@@ -465,7 +471,7 @@ def gen_config(spec, idx):
     rng = rng_for(spec["seed"], ID, spec["chunk"], idx, "cfg")
     P = gen.profile("full", p_after=0.25, p_invoke=0.25, p_history=0.3, p_hist_target=0.25, p_custom_id=0.25,
                     max_states=12, p_parallel=0.3, p_guard=0.5, p_root_on=0.5, p_effects=0.4,
-                    p_forbidden=0.12)
+                    p_forbidden=0.02)
     case = gen.gen_case(rng_for(spec["seed"], ID, spec["chunk"], idx, "case"), P)
     cfg = json_plan(copy.deepcopy(case.plan), rng)
     cfg = decorate(cfg, case, rng)
